@@ -189,7 +189,8 @@ T_PERI = (1998, 4, 14.4358)
 
 def check_minor(case):
     q, ecc, (i, node, w), dt = case["q"], case["e"], case["orient"], case["dt"]
-    T = Epoch(*T_PERI)
+    tp = tuple(case.get("T", T_PERI))
+    T = Epoch(*tp)
     out = []
     try:
         args = (q, ecc, Angle(i), Angle(node), Angle(w), T)
@@ -200,7 +201,7 @@ def check_minor(case):
     except Exception as ex:
         return [("minor_exception", "Minor(q=%r, e=%r, i=%r).geocentric_position at T%+g d raised %r"
                  % (q, ecc, i, dt, ex), None)]
-    if ep.jde() != j0 or T.jde() != Epoch(*T_PERI).jde() or args[2]._deg != i:
+    if ep.jde() != j0 or T.jde() != Epoch(*tp).jde() or args[2]._deg != i:
         out.append(("epoch_shifted", "Minor.geocentric_position modified its arguments", None))
     xs, ys, zs = Sun.rectangular_coordinates_j2000(ep)
     tau = 0.0
@@ -280,6 +281,187 @@ def run_minor_cont(block, ctx):
     ctx.sample(block[0])
 
 
+# -- close approaches: perihelion on the Sun-Earth line, just outside the Earth ---------------------
+
+CLOSE_T = [(1998, 4, 14.4358), (2005, 1, 3.0), (2013, 7, 5.5), (2029, 10, 1.25)]
+CLOSE_GAP = [0.002, 0.01, 0.03, 0.08, 0.2]
+CLOSE_E = [0.0, 0.3, 0.985, 1.0]
+CLOSE_DT = [0.0, 0.5, -0.5, 3.0, -3.0]
+
+
+def close_cases():
+    """Orbits whose perihelion lies on the Sun-Earth line of the perihelion date, a fraction ``gap``
+    of the Earth's distance beyond it (once in the ecliptic, once inclined 30 deg with the
+    perihelion at the node): the geocentric distance at dt = 0 is gap * R, down to 0.002 AU."""
+    out = []
+    for tp in CLOSE_T:
+        xs, ys, zs = Sun.rectangular_coordinates_j2000(Epoch(*tp))
+        ex, ey, ez = -xs, -ys, -zs
+        # equatorial J2000 -> ecliptic J2000
+        yy = ey * TB.CE + ez * TB.SE
+        lon = math.degrees(math.atan2(yy, ex)) % 360.0
+        R = math.sqrt(ex * ex + ey * ey + ez * ez)
+        for gap in CLOSE_GAP:
+            for ecc in CLOSE_E:
+                for orient in ((0.0, 0.0, lon), (30.0, lon, 0.0)):
+                    for dt in CLOSE_DT:
+                        out.append({"q": R * (1.0 + gap), "e": ecc, "orient": list(orient), "dt": dt,
+                                    "T": list(tp), "gap": gap})
+    return out
+
+
+# -- one Minor object and one Epoch object re-used over a history ------------------------------------
+
+H_ORBITS = {"A": (2.2091404, 0.8502196, 11.94524, 334.75006, 186.23352),      # Encke-like
+            "B": (0.5871018, 0.9672746, 162.0, 58.0, 112.0),                  # Halley-like
+            "C": (1.0, 1.0, 90.0, 120.0, 270.0),                              # parabola
+            "D": (3.363943, 0.1, 0.0, 0.0, 0.0)}
+H_EPOCHS = {"t1": (1990, 10, 6.0), "t2": (1998, 8, 5.0), "t3": (2011, 3, 1.5)}
+H_OPS = ["set:A", "set:B", "set:C", "set:D", "ep:t1", "ep:t2", "ep:t3", "new_body", "new_epoch"]
+
+
+def _h_direct(o, t):
+    """Two-body + library Earth oracle for orbit o at date t (independent of any library state)."""
+    q, ecc, i, node, w = H_ORBITS[o]
+    ep = Epoch(*H_EPOCHS[t])
+    dt = ep.jde() - Epoch(*T_PERI).jde()
+    xs, ys, zs = Sun.rectangular_coordinates_j2000(ep)
+    tau = 0.0
+    for _ in range(4):
+        H = TB.helio_equ(q, ecc, i, node, w, dt - tau)
+        G = (H[0] + xs, H[1] + ys, H[2] + zs)
+        tau = 0.0057755183 * math.sqrt(sum(c * c for c in G))
+    return S.lonlat(G)
+
+
+def check_minor_history(hist):
+    """Apply the operations to ONE Minor and ONE Epoch (re-set in place, or replaced by new
+    objects); after every operation the position must be the two-body direction of the current
+    (orbit, date), whatever orbit or date the objects held before."""
+    out = []
+    T = Epoch(*T_PERI)
+
+    def mk(o):
+        q, ecc, i, node, w = H_ORBITS[o]
+        return Minor(q, ecc, Angle(i), Angle(node), Angle(w), T)
+    cur_o, cur_t = "A", "t1"
+    body = mk(cur_o)
+    ep = Epoch(*H_EPOCHS[cur_t])
+    body.geocentric_position(ep)
+    for k, op in enumerate(hist):
+        kind, _, arg = op.partition(":")
+        try:
+            if kind == "set":
+                q, ecc, i, node, w = H_ORBITS[arg]
+                body.set(q, ecc, Angle(i), Angle(node), Angle(w), T)
+                cur_o = arg
+            elif kind == "ep":
+                ep.set(*H_EPOCHS[arg])
+                cur_t = arg
+            elif kind == "new_body":
+                body = mk(cur_o)
+            elif kind == "new_epoch":
+                ep = Epoch(*H_EPOCHS[cur_t])
+            ra, dec, el = body.geocentric_position(ep)
+        except Exception as ex:
+            out.append(("minor_history", "history %r: operation %d raised %r" % (hist, k, ex), None))
+            break
+        gl, gb = _h_direct(cur_o, cur_t)
+        s = S.sep_ll(ra._deg, dec._deg, gl, gb)
+        if s > 1e-4:
+            out.append(("minor_history", "after %r the re-used objects (orbit %s, date %s) give a direction %.3g deg "
+                        "from the two-body direction" % (list(hist[:k + 1]), cur_o, cur_t, s), s))
+            break
+    return out
+
+
+def run_close(block, ctx):
+    for case in block:
+        ctx.evals += 1
+        res = check_minor(case)
+        for site, msg, dev in res:
+            ctx.viol(dict(case, i=case["orient"][0]), msg, dev=dev, site=site)
+        if case["gap"] <= 0.08:
+            ctx.nt_count += 1
+        ctx.outcome((case["e"], case["gap"], len(res)))
+        ctx.obs(case, len(res))
+    ctx.sample(block[0])
+
+
+def run_history(block, ctx):
+    for hist in block:
+        ctx.evals += len(hist) + 1
+        ctx.traces += 1
+        ctx.transitions += len(hist)
+        ctx.nt_count += 1
+        res = check_minor_history(hist)
+        for site, msg, dev in res:
+            ctx.viol({"history": list(hist)}, msg, dev=dev, site=site)
+        ctx.outcome((hist[-1], len(res)))
+        ctx.obs(hist, len(res))
+    ctx.sample({"history": list(block[0])})
+
+
+# -- one Epoch object re-set in place between planet queries ----------------------------------------
+
+PH_BODIES = PLANETS + ["Pluto"]
+PH_DATES = {"t1": (1992, 12, 20.0), "t2": (2018, 10, 27.25), "t3": (2080, 2, 29.5)}
+_PH_TABLE = {}
+
+
+def _ph_query(nm, ep):
+    P = Pluto if nm == "Pluto" else planet(nm)
+    return tuple(a._deg for a in P.geocentric_position(ep))
+
+
+def _ph_expected(nm, t):
+    """Result for a fresh Epoch object (the 'planets' / 'pluto' clauses hold these to the vectors)."""
+    if (nm, t) not in _PH_TABLE:
+        _PH_TABLE[(nm, t)] = _ph_query(nm, Epoch(*PH_DATES[t]))
+    return _PH_TABLE[(nm, t)]
+
+
+def check_planet_history(hist):
+    """hist = ((date, body), ...): ONE Epoch object is re-set to each date in turn and handed to that
+    body's geocentric_position; each answer must be the answer for a fresh Epoch of that date."""
+    for t in PH_DATES:
+        for nm in PH_BODIES:
+            _ph_expected(nm, t)
+    out = []
+    ep = Epoch(2000, 1, 1.5)
+    for k, (t, nm) in enumerate(hist):
+        try:
+            ep.set(*PH_DATES[t])
+            got = _ph_query(nm, ep)
+        except Exception as ex:
+            out.append(("planet_history", "history %r: step %d raised %r" % (hist, k, ex), None))
+            break
+        exp = _ph_expected(nm, t)
+        dev = max(abs(a - b) for a, b in zip(got, exp))
+        if dev > 1e-9:
+            out.append(("planet_history", "after %r: %s at %s with the re-used Epoch gives %r, with a fresh Epoch %r"
+                        % (list(hist[:k + 1]), nm, t, got, exp), dev))
+            break
+        if abs(ep.jde() - Epoch(*PH_DATES[t]).jde()) > 0:
+            out.append(("planet_history", "after %r the caller's Epoch has moved" % (list(hist[:k + 1]),), None))
+            break
+    return out
+
+
+def run_planet_history(block, ctx):
+    for hist in block:
+        ctx.evals += len(hist)
+        ctx.traces += 1
+        ctx.transitions += len(hist)
+        ctx.nt_count += 1
+        res = check_planet_history(hist)
+        for site, msg, dev in res:
+            ctx.viol({"history": [list(h) for h in hist]}, msg, dev=dev, site=site)
+        ctx.outcome((hist[-1], len(res)))
+        ctx.obs(hist, len(res))
+    ctx.sample({"history": [list(h) for h in block[0]]})
+
+
 def run_pluto_range(block, ctx):
     ctx.evals += 8
     ctx.nt_count += 2
@@ -303,6 +485,11 @@ def clauses(tier):
     while j < Epoch(2098, 12, 25).jde():
         pl.append(j)
         j += 30.0
+    import itertools
+    hd = 4 if tier == "thorough" else 3
+    hists = [h for d in range(1, hd + 1) for h in itertools.product(H_OPS, repeat=d)]
+    steps = [(t, nm) for t in sorted(PH_DATES) for nm in PH_BODIES]
+    phists = [h for d in range(1, (3 if tier == "thorough" else 2) + 1) for h in itertools.product(steps, repeat=d)]
     cont = [{"q": q, "orient": list(o), "dt": dt} for q in QS for o in ORIENT[1:3] for dt in (0.5, -20.0, 20.0)]
     return [
         Clause("planets", pshards, run_planets, lambda c: [m for _, m, _ in check_planet(c["planet"], c["jde"])],
@@ -311,6 +498,13 @@ def clauses(tier):
         Clause("pluto_range", [0], run_pluto_range, check_pluto_range, floor=2),
         Clause("minor", chunks(minor_cases(), 32), run_minor,
                lambda c: [m for _, m, _ in check_minor(c)], floor=500),
+        Clause("minor_close_approach", chunks(close_cases(), 16), run_close,
+               lambda c: [m for _, m, _ in check_minor(c)], floor=200),
+        Clause("minor_history", chunks(hists, 16), run_history,
+               lambda c: [m for _, m, _ in check_minor_history(tuple(c["history"]))], floor=500, shape="H"),
+        Clause("planet_history", chunks(phists, 32), run_planet_history,
+               lambda c: [m for _, m, _ in check_planet_history(tuple(tuple(h) for h in c["history"]))],
+               floor=500, shape="H"),
         Clause("minor_continuity", chunks(cont, 4), run_minor_cont,
                lambda c: [m for _, m, _ in check_minor_continuity(c)], floor=10),
     ]
